@@ -281,7 +281,6 @@ type c37Outcome struct {
 	usedAtCap uint64
 	tr        c37Trace
 	belowOK   bool // exec(est-1) succeeded (only evaluated when an estimate exists)
-	excluded  bool // clause (D) skipped for a listed known finding
 	ratio     float64
 	capErr    string
 }
@@ -360,25 +359,11 @@ func c37Judge(fail func(format string, args ...any), e *c37Env, c *c37Call, noGa
 		okBelow, _, _ := e.exec(msg, est-1, nil)
 		out.belowOK = okBelow
 		strict := noGasIntrospection && !out.tr.gasOp && (propagating || out.tr.innerCode == 0)
-		// Known-finding gate (only active when the lead listed the class): under Amsterdam
-		// the plain-transfer short circuit answers params.TxGas although a zero-value
-		// transfer costs less (EIP-2780).
-		if okBelow && strict && c.errRatio == 0 && okCap && c37KnownShortcut() &&
-			e.fork >= ep.Amsterdam && len(c.data) == 0 && c.to != nil && e.state.GetCodeSize(*c.to) == 0 && est == params.TxGas {
-			out.excluded = true
-			return out
-		}
 		if okBelow && strict && c.errRatio == 0 && okCap {
 			fail("(D) estimate %d is not minimal for a gas-monotone call: %d gas suffices as well (used at cap: %d)", est, est-1, out.usedAtCap)
 		}
 	}
 	return out
-}
-
-const c37ClassShortcut = "amsterdam-transfer-shortcut"
-
-func c37KnownShortcut() bool {
-	return vs.Known("TestVerifC37Transfers", c37ClassShortcut) || vs.Known("TestVerifC37World", c37ClassShortcut)
 }
 
 func (o *c37Outcome) strict(noGasIntrospection, propagating bool) bool {
@@ -693,9 +678,6 @@ func c37SetBalance(e *c37Env, b *uint256.Int) {
 }
 
 func c37Classify(c *vs.Case, o *c37Outcome, strict bool) {
-	if o.excluded {
-		c.Class("known:" + c37ClassShortcut)
-	}
 	switch {
 	case o.okCap:
 		c.Class("cap:succeeds")
@@ -718,7 +700,6 @@ func c37Classify(c *vs.Case, o *c37Outcome, strict bool) {
 			c.Class("strict-monotone")
 		}
 		switch {
-		case o.belowOK && o.excluded:
 		case o.belowOK && o.ratio > 0:
 			c.Class("one-less-also-succeeds:ratio>0")
 		case o.belowOK && o.tr.gasOp:
@@ -844,9 +825,6 @@ func TestVerifC37World(t *testing.T) {
 		}, e, call, w.Monotone, false)
 		strict := o.strict(w.Monotone, false)
 		c37Classify(c, &o, strict && call.errRatio == 0)
-		if o.excluded {
-			st.Excluded()
-		}
 		nCases++
 		if o.estErr == nil && o.okCap {
 			nOK++
@@ -1117,9 +1095,6 @@ func TestVerifC37Nested(t *testing.T) {
 		}, e, call, true, propagating)
 		strict := o.strict(true, propagating) && call.errRatio == 0
 		c37Classify(c, &o, strict)
-		if o.excluded {
-			st.Excluded()
-		}
 		nt := o.estErr == nil && o.okCap && o.tr.innerCode > 0 && o.est > o.peakAtEst
 		nCases++
 		if nt {
@@ -1179,9 +1154,6 @@ func TestVerifC37Transfers(t *testing.T) {
 								c.Class("fork:" + fork.String())
 								c.Class("target:" + tg.name)
 								c37Classify(c, &o, true)
-								if o.excluded {
-									st.Excluded()
-								}
 								c.NonTrivial(o.estErr == nil, desc)
 								c.Sample(o.estErr == nil, func() any { return c37Render(e, call, nil, balance, &o) })
 								n++
